@@ -150,7 +150,7 @@ def run(tier):
         return {"evaluations": wit.get("loads", 0) + cov["transitions"], "distinct_nontrivial": wit.get("states_round_tripped", 0)}
 
     if tier == "quick":
-        return e1check.run_e1(spec, tier, depth=4, state_budget=300000, time_budget=150, rule=RULE, assumptions=ASSUMPTIONS, extra_cov=extra)
+        return e1check.run_e1(spec, tier, depth=4, state_budget=300000, time_budget=600, rule=RULE, assumptions=ASSUMPTIONS, extra_cov=extra)
     return e1check.run_e1(spec, tier, depth=5, state_budget=2000000, time_budget=1800, rule=RULE, assumptions=ASSUMPTIONS, extra_cov=extra)
 
 
